@@ -381,7 +381,8 @@ def setup(ctx):
     ctx.PC = SqParser(parse_cache={})     # half of the shapes are evaluated on a caching parser: the same tree is re-evaluated under every assignment
     ctx.templates = arity_templates()
     from smartquery import functions as _functions
-    ctx.table_names = sorted(_functions.FUNCTIONS)
+    from lib import gram as _gram
+    ctx.table_names = sorted(set(_functions.FUNCTIONS) | set(_gram.table_names()))
     ctx.log = []
 
     def t(i):
